@@ -284,7 +284,10 @@ func TestExhaustiveHeaders(t *testing.T) {
 	// boundaries in each head width, simple values), alone, as a map value, as a map key and
 	// inside an array — the tag handlers convert their content with code of their own
 	if sh == 0 {
-		tags := [][]byte{{0xc0}, {0xc1}, {0xc2}, {0xc3}, {0xd8, 0x3f}, {0xd9, 0x01, 0x04}, {0xd9, 0x01, 0x05}, {0xd9, 0x01, 0x06}, {0xd9, 0x01, 0x07}, {0xd9, 0x03, 0xe8}, {}}
+		tags := [][]byte{{0xc0}, {0xc1}, {0xc2}, {0xc3}, {0xd8, 0x3f}, {0xd9, 0x01, 0x04}, {0xd9, 0x01, 0x05}, {0xd9, 0x01, 0x06}, {0xd9, 0x01, 0x07}, {0xd9, 0x03, 0xe8}, {},
+			// tag numbers in the 4- and 8-byte argument forms: known tags spelled long, and numbers up to 2^64-1
+			{0xda, 0, 0, 0, 1}, {0xda, 0, 0, 1, 6}, {0xda, 0xff, 0xff, 0xff, 0xff}, {0xdb, 0, 0, 0, 0, 0, 0, 0, 1}, {0xdb, 0, 0, 0, 0, 0, 0, 1, 4},
+			{0xdb, 0x7f, 0xff, 0xff, 0xff, 0xff, 0xff, 0xff, 0xff}, {0xdb, 0x80, 0, 0, 0, 0, 0, 0, 0}, {0xdb, 0xff, 0xff, 0xff, 0xff, 0xff, 0xff, 0xff, 0xff}, {0xd8, 0x01}, {0xd8, 0xff}}
 		for _, tg := range tags {
 			for _, sc := range specialScalars() {
 				item := append(append([]byte{}, tg...), sc...)
@@ -450,7 +453,7 @@ func (g gen) item(depth int, out *[]byte) {
 			*out = append(*out, 0xff)
 		}
 	case 6:
-		tag := rapid.SampledFrom([]uint64{1, 1, 63, 260, 261, 262, 263, 260, 261, 2, 0, 1000, 1 << 40}).Draw(t, "tag")
+		tag := rapid.SampledFrom([]uint64{1, 1, 63, 260, 261, 262, 263, 260, 261, 2, 0, 1000, 1 << 40, 1 << 63, 1<<64 - 1, 1<<63 - 1}).Draw(t, "tag")
 		g.head(6, tag, out)
 		g.item(depth-1, out)
 	case 7:
